@@ -319,6 +319,9 @@ def vm_crosscheck(ctx, orc, reqs):
     with vf.Lock('coq'):
         p = vf.sh(['coqc', '-Q', vf.COQ, 'Clip', '-w', '-all', f], cwd=ctx.work, timeout=600)
     ctx.cov['vm_compute_crosscheck'] = len(sample)
+    if p.returncode != 0 and 'Unable to unify' not in (p.stdout + p.stderr):
+        # coqc could not even load the development (e.g. a scratch copy removed by a concurrent run): not a verdict
+        raise vf.Infra('vm_compute cross-check could not be run: %s' % (p.stdout + p.stderr)[-800:])
     if p.returncode != 0:
         ctx.violation('extraction-mismatch', 'vm_compute and the extracted oracle disagree on a sampled case: %s' % (p.stdout + p.stderr)[-600:],
                       replay=dict(file=read_small(f)), nofail=True)
